@@ -490,3 +490,38 @@ func HeldAtReturn(fn *ssa.Function) map[string]string {
 	}
 	return out
 }
+
+// HeldAt lists the locks that are held, on some acyclic path of fn, when the path reaches instruction at (locks acquired on
+// the path and not released before it; deferred unlocks have not run yet). The result maps the lock to one such path's
+// conditions.
+func HeldAt(fn *ssa.Function, at ssa.Instruction) map[string]string {
+	out := map[string]string{}
+	paths, _ := EnumPaths(fn, 4096)
+	for _, p := range paths {
+		if !p.Passes(at) {
+			continue
+		}
+		held := map[LockID]bool{}
+		for _, in := range p.InstrSeq() {
+			if in == at {
+				break
+			}
+			if call, ok := in.(*ssa.Call); ok {
+				if id, op, ok := lockOp(&call.Call); ok {
+					switch op {
+					case "Lock", "RLock":
+						held[id] = true
+					default:
+						delete(held, id)
+					}
+				}
+			}
+		}
+		for id := range held {
+			if _, dup := out[id.String()]; !dup {
+				out[id.String()] = p.CondString()
+			}
+		}
+	}
+	return out
+}
